@@ -15,6 +15,8 @@ Operation kinds (base = basename of the file concerned):
   h5set     Dataset.__setitem__                    h5flush / h5close   File.flush / File.close (writable)
   ovgene    per-gene step of OverlapWorker.calculate (base of the overlap file being calculated)
   mergesum  MergeData._process_sum (base of the result file)
+  fwrite    a text intermediate (*.tsv, *.tsv.tmp) opened for writing through builtins.open: the raw file under the buffered writer
+            fails with ENOSPC once "byte" bytes have reached it (base = the name without ".tmp"); the device stays full (fault mode only)
 crash  = SIGKILL to the whole process group (main process, pool workers, manager servers) at the event
 fault  = OSError(ENOSPC) raised by the file operation / RuntimeError raised by the computation step."""
 import errno, json, os, runpy, signal, sys
@@ -99,6 +101,46 @@ def install():
         event("write %s at byte %d of %d" % (base(path), b, len(data)))
         return None
     pd.DataFrame.to_csv = to_csv
+
+    # the raw file under Python's buffered text writer: a full device shows when the buffer is flushed - possibly only at close
+    import builtins, io
+    o_open = builtins.open
+
+    class FaultyRaw(io.FileIO):
+        def __init__(self, path, mode, label, limit):
+            super().__init__(path, mode)
+            self._vh = {"n": 0, "label": label, "limit": limit}
+
+        def write(self, b):
+            st = self._vh
+            b = bytes(b)
+            if st["limit"] is not None and st["n"] + len(b) > st["limit"]:
+                k = max(0, st["limit"] - st["n"])
+                if k:
+                    super().write(b[:k]); st["n"] += k; st["limit"] = st["n"]
+                enospc("write %s after %d bytes" % (st["label"], st["n"]))
+            st["n"] += len(b)
+            return super().write(b)
+
+        def close(self):
+            if not self.closed and self._vh is not None and self._vh["limit"] is None:
+                _log({"kind": "fwlen", "base": self._vh["label"], "len": self._vh["n"]})
+            return super().close()
+
+    def vh_open(file, mode="r", buffering=-1, encoding=None, errors=None, newline=None, closefd=True, opener=None):
+        try:
+            name = os.fspath(file) if isinstance(file, (str, os.PathLike)) else None
+        except Exception:
+            name = None
+        if name is None or "w" not in mode or "b" in mode or opener is not None or not (name.endswith(".tsv") or name.endswith(".tsv.tmp")):
+            return o_open(file, mode, buffering, encoding, errors, newline, closefd, opener)
+        label = base(name)[:-4] if name.endswith(".tmp") else base(name)
+        targeted = hit("fwrite", label)
+        limit = SPEC.get("byte", 0) if (targeted and MODE == "fault") else None
+        raw = FaultyRaw(name, "w", label, limit)
+        buf = io.BufferedWriter(raw) if buffering in (-1, 1) else io.BufferedWriter(raw, buffering)
+        return io.TextIOWrapper(buf, encoding=encoding, errors=errors, newline=newline, line_buffering=(buffering == 1))
+    builtins.open = vh_open
 
     o_replace = os.replace
 
